@@ -210,8 +210,13 @@ func cmdLoadHist(args []string) {
 			// (asked whatever the read-back says: a root that did not take a refused load back shows it here too)
 			if *intro && st.Intro != nil && okMatches {
 				for _, inc := range []bool{true, false} {
-					before := sch.PseudoTypes
+					before, beforeLocs := sch.PseudoTypes, sch.UndeclaredLocs
 					view, ierrs := sch.IntroView(root, inc)
+					if sch.UndeclaredLocs > beforeLocs && inc {
+						cs["aspect"] = "intro"
+						rep.Mismatch(vh.Mismatch{Case: copyCase(cs), Step: si + 1, Known: "LocationNotInIntrospectionEnum",
+							What: "intro: a directive is reported with a location that is no value of __DirectiveLocation (as __type reports that enum)"})
+					}
 					if sch.PseudoTypes > before && inc {
 						cs["aspect"] = "intro"
 						rep.Mismatch(vh.Mismatch{Case: copyCase(cs), Step: si + 1, Known: "SchemaBlockListedAsType",
